@@ -69,6 +69,9 @@ def register(PROPS, COMPONENTS):
                 for x in part.get(k, []):
                     if x not in sp[k]:
                         sp[k] = sp[k] + [x]
+            # optional: a part may describe what it adds to the property's level text
+            if part.get("level_text_add") and part["level_text_add"] not in sp.get("level_text", ""):
+                sp["level_text"] = sp.get("level_text", "") + " " + part["level_text_add"]
 
     # C14 spans three components; say which parts this tree actually carries
     if "C14" in PROPS:
